@@ -306,9 +306,10 @@ SPECS["C02"] = {
         {"name": "walk", "pkg": "mimetype", "harnesses": ["HC03Walk"], "quick_args": fix(tier=0, extends=0), "thorough_args": fix(tier=0, extends=0), "quick_shards": 16, "thorough_shards": 16},
         {"name": "errors", "pkg": "mimetype", "harnesses": ["HC05Reader", "HC05File"], "quick_args": fix(maxlen=2), "thorough_args": fix(maxlen=3), "quick_shards": 16, "thorough_shards": 32},
         {"name": "onresult", "pkg": "mimetype", "harnesses": ["HC14OnResult"], "quick_shards": 8, "thorough_shards": 8},
+        {"name": "data", "pkg": "mimetype", "harnesses": ["HC01Data"], "args": ["-max-instr", "30000000"], "quick_args": fix(dataTier=0), "thorough_args": fix(dataTier=1), "quick_shards": 48, "thorough_shards": 64},
     ],
-    "must_reach": ["assert:onresult:ancestors-carry-no-parameters", "assert:walk:ancestor-bare", "assert:error-yields-errMIME", "assert:errMIME-is-bare-root", "end", "assert:format:string-parses", "assert:format:registered-type", "assert:format:only-charset-parameter", "assert:registered-type-is-bare-media-type", "assert:parameter-only-on-text-types", "assert:chain-ends-at-octet-stream"],
-    "bounds": {"quick": {"label": "0 and 1 arbitrary bytes in 5 carriers"}, "thorough": {"label": "0 and 2 arbitrary bytes"}},
+    "must_reach": ["assert:data:string-parses", "assert:data:only-charset-parameter", "assert:data:rooted", "assert:onresult:ancestors-carry-no-parameters", "assert:walk:ancestor-bare", "assert:error-yields-errMIME", "assert:errMIME-is-bare-root", "end", "assert:format:string-parses", "assert:format:registered-type", "assert:format:only-charset-parameter", "assert:registered-type-is-bare-media-type", "assert:parameter-only-on-text-types", "assert:chain-ends-at-octet-stream"],
+    "bounds": {"quick": {"label": "0 and 1 arbitrary bytes in 5 carriers", "data": "results of Detect on the repository's 215 test headers with symbolic perturbations (HC01Data)"}, "thorough": {"label": "0 and 2 arbitrary bytes"}},
     "outside": ["labels longer than the bound", "carriers other than the five templates"],
     "assumptions": [],
 }
